@@ -172,9 +172,12 @@ def roles_run(ctx):
 
 CHECKS = {
     "C02": {
-        "lean_modules": ["P3R.Props.C02", "P3R.Lemmas.BuilderSound"],
+        "lean_modules": ["P3R.Props.C02", "P3R.Props.C02Run", "P3R.Lemmas.BuilderSound"],
         "theorems": ["P3R.C02.dedup_rewrite_terminates", "P3R.C02.setW_get", "P3R.C02.setW_mono",
                      "P3R.C02.execAlu_sound",
+                     # whole-run soundness: run = ok => every Const/ALU relation holds on the returned witness
+                     "P3R.C02.execAlu_establishes", "P3R.C02.execOp_establishes", "P3R.C02.execAll_establishes",
+                     "P3R.C02.run_ok_sat",
                      # builder rule soundness w.r.t. the denotation of Model/SymCompile (proved for C13, same builder model)
                      "P3R.binv_init", "P3R.defineConst_sound", "P3R.add_sound", "P3R.sub_sound", "P3R.mul_sound",
                      "P3R.mulAdd_sound"],
